@@ -8,7 +8,8 @@
    at every step (kinds c13-missing-panic / c13-unexpected-panic / c13-state-changed); that the state stays well-formed
    and is released exactly once afterwards is C03's ledger check at the end of every history. *)
 From Coq Require Import NArith.
-From BV Require Import Base Heap HeapLaws HeapPanic Spec.
+From stdpp Require Import gmap.
+From BV Require Import Base Heap HeapLaws HeapPanic Spec HeapWFOps HeapWFMain SizeInv RefineM1 PanicExact.
 
 Theorem C13_panics_are_clean : forall orc o, clean_panic_op o = true -> cp (hstep orc o).
 Proof. exact panics_are_clean. Qed.
@@ -22,8 +23,20 @@ Proof. exact reserve_inner_false. Qed.
 Example C13_nonvacuous : clean_panic_op (OMReserve 1 5) = true /\ clean_panic_op (OBSlice 1 9 3) = true /\ clean_panic_op (OMSplitOff 2 77) = true.
 Proof. repeat split. Qed.
 
+(* "cause a panic or the documented no-op ... never a silent wrong result": on M2, for every operation whose panics are argument checks
+   (slice / slice_ref / split_off / split_to / advance / truncate / clear of Bytes and BytesMut, index writes, with_capacity / zeroed, from_owner,
+   clone / drop / freeze / is_unique which never panic), in every reachable state the call panics EXACTLY when the reference model M1 says the
+   arguments are out of contract, and otherwise returns what M1 prescribes (C01).  Capacity-overflow panics of the allocating operations are
+   outside this statement (M1 states them approximately). *)
+Theorem C13_panics_exactly_when_out_of_contract : forall orcs n s o, (forall i, oracle_sane (orcs i)) -> reach orcs n s -> op_ok s o -> arg_checked o = true ->
+  (exists s' e', run_op (orcs n) o s = PANIC s' e') <-> (forall uniq, sstep (cap_of s o) uniq o (abs s) = SPanic).
+Proof. exact panics_exactly. Qed.
+Example C13_exact_nonvacuous : arg_checked (OBSlice 1 9 3) = true /\ arg_checked (OMSplitOff 2 77) = true /\ arg_checked (OMReserve 1 5) = false.
+Proof. done. Qed.
 Print Assumptions C13_panics_are_clean.
 Print Assumptions C13_cp_means.
 Print Assumptions C13_freeze_never_panics.
 Print Assumptions C13_reserve_false_is_noop.
 Print Assumptions C13_nonvacuous.
+Print Assumptions C13_panics_exactly_when_out_of_contract.
+Print Assumptions C13_exact_nonvacuous.
